@@ -927,7 +927,8 @@ def run(ctx):
         # compute_path_dsjctn); pairs with include lists over all element kinds, judged by route_ok and the
         # proved-complete exists_disjoint_pair (machinery shared with the C12 check)
         from . import c12
-        c12.process(ctx, rng, [c12.gen_vector_case(rng) for _ in range(ctx.scale(30, 300))], 'C11', 'vec')
+        c12.process(ctx, rng, [c12.gen_vector_case(rng) for _ in range(ctx.scale(30, 300))]
+                    + [c12.gen_perm_case(rng) for _ in range(ctx.scale(20, 300))], 'C11', 'vec')
         run_big(ctx, rng, ctx.scale(8, 60))
     elif nets and nets[0].get('big'):
         run_big(ctx, rng, 1, fixed=nets)
